@@ -4056,6 +4056,12 @@ func (stmt *SelectStmt) selectorAppearsInTargets(s Selector) bool {
 // "SELECT col AS alias ... ORDER BY alias" syntax.
 func (stmt *SelectStmt) resolveOrderByAliases() {
 	for i, ordExp := range stmt.orderBy {
+		// ORDER BY <n> refers to the n-th select-list entry (the sort runs below the projection)
+		if pos, isPos := ordExp.exp.(*Integer); isPos && pos.val >= 1 && pos.val <= int64(len(stmt.targets)) {
+			stmt.orderBy[i] = &OrdExp{exp: stmt.targets[pos.val-1].Exp, descOrder: ordExp.descOrder, nullsOrder: ordExp.nullsOrder, wasAliasResolved: true}
+			continue
+		}
+
 		// Check if the ORDER BY expression is a simple column selector
 		sel := ordExp.AsSelector()
 		if sel == nil {
